@@ -102,7 +102,7 @@ def run_mpi_cases(chk, cases, timeout=240, retries=1):
                 # main loop is slow progress, not a shutdown defect => inconclusive. Stalls during shutdown stay violations of C08.
                 keep = []
                 for prop, key, detail in rec["viol"]:
-                    if prop == "C08" and (key == "runaway:event-budget" or (key == "hang" and "signature=loop ::" in detail)):
+                    if prop == "C08" and (key == "hang" and "signature=loop ::" in detail):
                         chk.inconc_case("slow progress in the main loop on %s rank %d (%s)" % (res.tag, r, key))
                         chk.stats["mpi_main_loop_stalls_inconclusive"] = chk.stats.get("mpi_main_loop_stalls_inconclusive", 0) + 1
                     else:
@@ -122,6 +122,9 @@ def run_mpi_cases(chk, cases, timeout=240, retries=1):
                     anomaly = ("slow:" if (sigx == "loop" or sigx.startswith("runaway-events")) else "hang:") + sigx
                 if "models_rejected" in rec["stats"]:
                     rejected = True
+                if ("BUDGET-EXCEEDED" in txt or "MEMORY-BACKSTOP" in txt) and not anomaly:
+                    anomaly = "slow:budget"
+                    chk.inconc_case("event/memory budget exceeded on %s rank %d (speculative flood): no verdict" % (res.tag, r))
                 all_ok &= rec["ok"]
                 m = re.search(r"^LPRANGE (\d+) (\d+) (\d+) (\d+) (\d+)$", txt, re.M)
                 if m:
